@@ -525,10 +525,17 @@ def mul_cases(cv, rng, quick, scale=1.0):
     per_op = max(6, int((14 if quick else 0.6 * len(corners)) * scale))
     ms = [m for m in base_multiples(cv, rng, 2) if m % cv.n]
 
-    def ks():
-        if per_op >= len(corners):
-            return list(corners)
-        return rng.sample(must, min(len(must), per_op // 2)) + rng.sample(corners, per_op - min(len(must), per_op // 2))
+    # scalars with more bits than n meet a recorded finding in every routine but eb_mul_basic / eb_mul_halve
+    # (no reduction modulo n): a few per routine, the rest of the budget goes to scalars up to bits(n)
+    short = [k for k in corners if abs(k).bit_length() <= cv.n.bit_length()]
+    long_ = [k for k in corners if abs(k).bit_length() > cv.n.bit_length()]
+
+    def ks(nlong=2 if quick else 6):
+        if per_op >= len(short):
+            base = list(short)
+        else:
+            base = rng.sample(must, min(len(must), per_op // 2)) + rng.sample(short, per_op - min(len(must), per_op // 2))
+        return base + rng.sample(long_, min(nlong, len(long_)))
 
     def P(force=None):
         return pt(cv, rng.choice(ms), rng, 2, force=force or rng.choice(["a", "a", "a", "z"]))
@@ -536,11 +543,11 @@ def mul_cases(cv, rng, quick, scale=1.0):
     for op in EB_MUL:
         for k in ks():
             L.append("%s %s %d %s %s" % (c, op, rng.choice([0, 0, 1]), P(), hx(k)))
-        L.append("%s %s 0 inf %s" % (c, op, hx(rng.choice(corners))))
+        L.append("%s %s 0 inf %s" % (c, op, hx(rng.choice(short))))
     # points outside the prime-order subgroup (the order-two point, G + T): the generic routines
     for op in ("eb_mul_basic",) + (("eb_mul_lwnaf", "eb_mul_rwnaf") if not cv.kbl else ()):
         for k in rng.sample(must, 4) + [rng.randrange(cv.n)]:
-            L.append("%s %s 0 %s %s" % (c, op, t2_token(cv, rng, 1), hx(k)))
+            L.append("%s %s 0 %s %s" % (c, op, t2_token(cv, rng, 2 if op != "eb_mul_basic" else 1), hx(k)))
             L.append("%s %s 0 %s %s" % (c, op, pt(cv, 1, rng, 1, coset=True), hx(k)))
     for op in EB_FIX:
         pts = [P("a") for _ in range(1 if quick else 2)]
@@ -555,8 +562,10 @@ def mul_cases(cv, rng, quick, scale=1.0):
     L.append("%s eb_mul_dig 0 inf 5" % c)
     nsim = max(3, int((5 if quick else 40) * scale))
     for op in EB_SIM + ["eb_mul_sim_gen"]:
-        prs = [(rng.choice(corners), rng.choice(corners)) for _ in range(nsim)] + \
-              [(rng.choice(corners), 0), (0, rng.choice(corners)), (cv.n, rng.choice(corners))][:2 if quick else 3]
+        prs = [(rng.choice(short), rng.choice(short)) for _ in range(nsim)] + \
+              [(rng.choice(short), 0), (0, rng.choice(short)), (cv.n, rng.choice(short))][:2 if quick else 3] + \
+              [(rng.choice(long_), rng.choice(short)), (rng.choice(short), rng.choice(long_))][:1 if quick else 2] + \
+              [(1, rng.choice(short)), (rng.choice(short), -1)]
         for (k, m) in prs:
             if op == "eb_mul_sim_gen":
                 L.append("%s %s %d %s %s %s" % (c, op, rng.choice([0, 0, 2]), hx(k), pt(cv, rng.choice(ms + [0]), rng, 2), hx(m)))
